@@ -124,12 +124,51 @@ func OracleFullVsMem(prefix string) SeqOracle {
 			}
 		}
 		if r.Drained != nil && mr.Drained != nil {
-			for cl, l := range evs(r.DrainEv) {
-				accF[cl] = append(accF[cl], l...)
+			// A hold whose deadline falls near the end of the history ends by time in one execution and by the drain's
+			// unlock in the other (a shortened hold may be ended up to 10 s late, and the two executions' sweepers are
+			// not in step): the drain's own replies are left out, and so is an expiry notice for a LockId that the other
+			// execution's drain released.
+			drainFreed := func(es []hapi.Event) map[string]bool {
+				m := map[string]bool{}
+				for _, e := range es {
+					if e.Req >= 200 && e.Cmd == 2 && e.Result == 0 {
+						m[fmt.Sprintf("%s/%x/%x", e.Client, e.Key[15], e.LockId[15])] = true
+					}
+				}
+				return m
 			}
-			for cl, l := range evs(mr.DrainEv) {
-				accM[cl] = append(accM[cl], l...)
+			freedF, freedM := drainFreed(r.DrainEv), drainFreed(mr.DrainEv)
+			filter := func(m map[string][]string, es []hapi.Event, otherFreed map[string]bool) map[string][]string {
+				out := map[string][]string{}
+				var keep []hapi.Event
+				for _, e := range es {
+					if e.Req >= 200 {
+						continue
+					}
+					keep = append(keep, e)
+				}
+				for cl, l := range evs(keep) {
+					out[cl] = append(out[cl], l...)
+				}
+				for cl, l := range m {
+					for _, x := range l {
+						drop := false
+						if strings.Contains(x, "=EXPRIED ") {
+							for k := range otherFreed {
+								p := strings.Split(k, "/")
+								if p[0] == cl && strings.Contains(x, " id"+p[2]+" ") && strings.Contains(x, " key"+p[1]+" ") {
+									drop = true
+								}
+							}
+						}
+						if !drop {
+							out[cl] = append(out[cl], x)
+						}
+					}
+				}
+				return out
 			}
+			accF, accM = filter(accF, r.DrainEv, freedM), filter(accM, mr.DrainEv, freedF)
 			if !same() {
 				for _, cl := range []string{"a", "b", "c", "d"} {
 					x, y := append([]string{}, accF[cl]...), append([]string{}, accM[cl]...)
